@@ -53,7 +53,9 @@ func (m *Model) RecordReading(val float32) (*traits.MeterReading, error) {
 		now := m.meterReading.Clock().Now()
 		newVal := new.(*traits.MeterReading)
 		newVal.EndTime = timestamppb.New(now)
-	}))
+	}),
+		// only usage and end time change, the start time of the reading period is kept
+		resource.WithUpdatePaths("usage", "end_time"))
 }
 
 // Reset resets the meter to zero, updating both start and end times to now.
